@@ -7,10 +7,14 @@
    dict before plain class attribute).
 
    State per class: own features, own operations, eSuperTypes (metamodel side)
-   and namespace, bases (Python side).  The linearisation is recomputed from
-   the bases graph (CPython caches it, and re-derives it for the class and all
-   its subclasses at every successful __bases__ assignment; a failed
-   assignment is rolled back, so the cache always equals the recomputation).
+   and namespace, bases, cached linearisation (__mro__) and registered direct
+   subclasses in registration order (Python side).  A __bases__ assignment
+   (typeobject.c type_set_bases / mro_hierarchy) re-linearises the class from
+   the *cached* linearisations of its bases, then each registered subclass in
+   turn, depth first; the first failure rolls everything back.  Subclasses are
+   therefore re-linearised against partly stale caches, which makes some
+   assignments fail although a from-scratch linearisation exists -- pyecore
+   then falls back (sorted order, then the global replacement).
    Class 0 is EObject (root); dynamic classes are numbered from 1.
    Values: -1 = None, 0..999 = that int, 1000+j = instance j.
    No proofs here. *)
@@ -44,7 +48,9 @@ Record cls : Type := mkCls {
   c_ops : list oper;
   c_supers : list Z;
   c_ns : list (name * entry);
-  c_bases : list Z
+  c_bases : list Z;
+  c_mro : list Z;      (* cached __mro__ (EObject = 0 included) *)
+  c_subs : list Z      (* __subclasses__(), registration order *)
 }.
 
 Record inst : Type := mkInst { i_cls : Z; i_dict : list (name * slot) }.
@@ -105,6 +111,21 @@ Definition geti (st : state) (i : Z) : option inst :=
 Definition seti (st : state) (i : Z) (x : inst) : state :=
   mkState (classes st) (set_at (Z.to_nat i) x (insts st)) (flag st).
 
+Definition with_feats (fs : list feat) (k : cls) :=
+  mkCls fs (c_ops k) (c_supers k) (c_ns k) (c_bases k) (c_mro k) (c_subs k).
+Definition with_ops (os : list oper) (k : cls) :=
+  mkCls (c_feats k) os (c_supers k) (c_ns k) (c_bases k) (c_mro k) (c_subs k).
+Definition with_ns (ns : list (name * entry)) (k : cls) :=
+  mkCls (c_feats k) (c_ops k) (c_supers k) ns (c_bases k) (c_mro k) (c_subs k).
+Definition with_supers (ss : list Z) (k : cls) :=
+  mkCls (c_feats k) (c_ops k) ss (c_ns k) (c_bases k) (c_mro k) (c_subs k).
+Definition with_bases (bs : list Z) (k : cls) :=
+  mkCls (c_feats k) (c_ops k) (c_supers k) (c_ns k) bs (c_mro k) (c_subs k).
+Definition with_mro (l : list Z) (k : cls) :=
+  mkCls (c_feats k) (c_ops k) (c_supers k) (c_ns k) (c_bases k) l (c_subs k).
+Definition with_subs (l : list Z) (k : cls) :=
+  mkCls (c_feats k) (c_ops k) (c_supers k) (c_ns k) (c_bases k) (c_mro k) l.
+
 Definition nclasses (st : state) : nat := length (classes st).
 Definition fuel_of (st : state) : nat := S (S (nclasses st)).
 
@@ -117,8 +138,13 @@ Definition supers_fn (st : state) (c : Z) : list Z :=
 Definition ns_of (st : state) (c : Z) : list (name * entry) :=
   match getc st c with Some k => c_ns k | None => [] end.
 
-(* type(x).__mro__ restricted to EObject and the dynamic classes *)
+(* type(x).__mro__ restricted to EObject and the dynamic classes: the cache *)
 Definition mro (st : state) (c : Z) : option (list Z) :=
+  if c =? 0 then Some [0]
+  else match getc st c with Some k => Some (c_mro k) | None => None end.
+
+(* what a linearisation from scratch over the current bases graph gives *)
+Definition mro_spec (st : state) (c : Z) : option (list Z) :=
   mro_of (bases_fn st) (flag st) (fuel_of st) c.
 
 Definition is_some {A} (o : option A) : bool := match o with Some _ => true | None => false end.
@@ -151,22 +177,63 @@ Definition sort_desc (key : Z -> nat) (l : list Z) : list Z :=
 
 Definition set_bases (st : state) (c : Z) (bs : list Z) : state :=
   match getc st c with
-  | Some k => setc st c (mkCls (c_feats k) (c_ops k) (c_supers k) (c_ns k) bs)
+  | Some k => setc st c (with_bases bs k)
   | None => st
   end.
 
 Definition set_flag (st : state) : state := mkState (classes st) (insts st) true.
 
-(* the class and the classes that inherit from it *)
-Definition affected (st : state) (c : Z) : list Z :=
-  filter (fun d => match mro st d with Some l => zmem c l | None => false end)
-         (zseq 1 (nclasses st)).
+(* metatype.mro(cls): type.mro over the cached linearisations of the bases;
+   with the replacement installed, its fall-back when C3 fails *)
+Definition linearize_cached (st : state) (c : Z) (bs : list Z) : option (list Z) :=
+  match map_opt (mro st) bs with
+  | None => None
+  | Some ms =>
+    match linearize c ms bs with
+    | Some l => Some l
+    | None => if flag st then Some (zdedup (c :: all_bases (bases_fn st) (fuel_of st) c)) else None
+    end
+  end.
 
-(* python_class.__bases__ = bs : the linearisation of the class and of every
-   subclass must exist, otherwise TypeError and nothing changes *)
+(* mro_hierarchy: the class, then each registered subclass, depth first *)
+Fixpoint hier (fuel : nat) (st : state) (c : Z) : option state :=
+  match fuel with
+  | O => None
+  | S f =>
+    match getc st c with
+    | None => None
+    | Some k =>
+      match linearize_cached st c (c_bases k) with
+      | None => None
+      | Some l =>
+        (fix go (subs : list Z) (s : state) : option state :=
+           match subs with
+           | [] => Some s
+           | d :: r => match hier f s d with Some s' => go r s' | None => None end
+           end) (c_subs k) (setc st c (with_mro l k))
+      end
+    end
+  end.
+
+Definition remove_sub (c : Z) (olds : list Z) (st : state) : state :=
+  fold_left (fun s b => upd_cls s b (fun k => with_subs (filter (fun x => negb (x =? c)) (c_subs k)) k)) olds st.
+
+Definition add_sub (c : Z) (news : list Z) (st : state) : state :=
+  fold_left (fun s b => upd_cls s b (fun k => with_subs (c_subs k ++ [c]) k)) news st.
+
+(* python_class.__bases__ = bs (type_set_bases): no cycle; the class and all
+   its subclasses get a linearisation, otherwise TypeError and nothing
+   changes; then the subclass registrations move *)
 Definition assign (st : state) (c : Z) (bs : list Z) : option state :=
-  let st' := set_bases st c bs in
-  if forallb (fun d => is_some (mro st' d)) (c :: affected st c) then Some st' else None.
+  match getc st c with
+  | None => None
+  | Some k =>
+    if existsb (fun b => match mro st b with Some l => zmem c l | None => false end) bs then None
+    else match hier (fuel_of st) (setc st c (with_bases bs k)) c with
+         | None => None
+         | Some st2 => Some (add_sub c bs (remove_sub c (c_bases k) st2))
+         end
+  end.
 
 (* _update_supertypes (and the same three attempts in EClass.__new__) *)
 Definition update_supertypes (st : state) (c : Z) : state * option mexn :=
@@ -188,7 +255,7 @@ Definition update_supertypes (st : state) (c : Z) : state * option mexn :=
 
 Definition set_supers (st : state) (c : Z) (ss : list Z) : state :=
   match getc st c with
-  | Some k => setc st c (mkCls (c_feats k) (c_ops k) ss (c_ns k) (c_bases k))
+  | Some k => setc st c (with_supers ss k)
   | None => st
   end.
 
@@ -219,9 +286,6 @@ Inductive outcome : Type :=
 Definition upd_cls (st : state) (c : Z) (f : cls -> cls) : state :=
   match getc st c with Some k => setc st c (f k) | None => st end.
 
-Definition with_feats (fs : list feat) (k : cls) := mkCls fs (c_ops k) (c_supers k) (c_ns k) (c_bases k).
-Definition with_ops (os : list oper) (k : cls) := mkCls (c_feats k) os (c_supers k) (c_ns k) (c_bases k).
-Definition with_ns (ns : list (name * entry)) (k : cls) := mkCls (c_feats k) (c_ops k) (c_supers k) ns (c_bases k).
 
 Fixpoint remove_feat (n : name) (fs : list feat) : option (list feat) :=
   match fs with
